@@ -76,6 +76,7 @@ def run_obligation(task):
         intrinsics.install(eng)
         models.install(eng)
         eng.params = ob.get("params", {})
+        eng.arith = ob.get("arith", "bv")
         eng.vector = task.get("vector")
         eng.allow_panics = ob.get("allow_panics", False)
         eng.deadline = time.time() + task["time_limit_s"]
